@@ -11,6 +11,7 @@ from vlib.util import call
 from vlib.props.c05 import KINDS
 
 PROPERTY_ID = "C16"
+OPTIMIZED = ['wallet', 'import']   # clauses run a second time under `python -O` (assert statements stripped)
 RULE = ("seeds x both networks x accounts x intervals (0..3 rows) x node paths drawn from a set that contains BIP44/49/84 "
         "purposes and both coin types on both networks; wallets re-imported from reference keys under all 12 versions "
         "(exhaustive per case); every emitted string is classified main/test/untagged by independent decoders")
